@@ -191,7 +191,11 @@ def pytorch_stft_frame_computer(
         return sig.new_empty((0, num_filts + int(include_energy)))
     total_len = (num_frames - 1) * frame_shift - pad_left + frame_length
     pad_right = max(0, total_len - sig_len)
-    if pad_left or pad_right:
+    if pad_left < 0:
+        # kaldi_shift with a frame shift beyond the frame length: the first frame
+        # starts inside the signal
+        sig = torch.cat([sig, sig[sig_len - pad_right :].flip(0)])[-pad_left:]
+    elif pad_left or pad_right:
         # symmetric padding
         sig = torch.cat(
             [sig[:pad_left].flip(0), sig, sig[sig_len - pad_right :].flip(0)]
